@@ -106,9 +106,15 @@ def spellings(thorough):
                 ("HTTP" + u[4:], "upper-case-scheme"), ("HTTP" + bare[4:], "upper-case-scheme")]
         near = [bare + "/", bare + "#/", "https" + bare[4:] + "#", bare[:-6] + "SCHEMA#", bare + "#a"]
         if thorough:
-            near += [bare + "##", bare + ".json", " " + u, u + " ", bare[:-1], bare + "#/definitions",
+            near += [bare + "##", bare + ".json", u + " ", bare[:-1], bare + "#/definitions",
                      bare.replace("draft-0", "draft-"), "Http" + u[4:].replace("/draft", "//draft")]
         out += [(s, "near-miss-of-registered-id") for s in near]
+        # not URIs at all (RFC 3986 has no whitespace or control characters), hence unrecognised
+        ws = [" " + u]
+        if thorough:
+            ws += ["\n" + u, "\t" + bare, u.replace("/schema", "/sch\tema"), u.replace("/schema", "/sch\nema"),
+                   "\x00" + u]
+        out += [(s, "id-with-whitespace-or-control-characters") for s in ws]
     out += [(s, "unknown-uri") for s in (
         "http://example.com/unknown-schema#", "http://json-schema.org/draft-05/schema#", "urn:c20:unknown",
         "http://json-schema.org/schema#")]
@@ -187,6 +193,7 @@ def make_tag_class(lbl, meta_schema=None, role="class-registered-in-history", **
 TAG = make_tag_class("explicit-unregistered-class", role="explicit-unregistered-class")      # create() without version registers nothing
 EXPLICIT = [jsonschema.Draft3Validator, jsonschema.Draft4Validator, jsonschema.Draft6Validator,
             jsonschema.Draft7Validator, TAG]
+PAIR_CHUNKS = 4
 SENTINEL = type("SentinelDefault", (), {"__repr__": lambda s: "<sentinel default>"})()
 CLI_VALIDATORS = [None, "Draft4Validator", "jsonschema.validators.Draft6Validator"]
 CLI_CLASS = {"Draft4Validator": jsonschema.Draft4Validator,
@@ -333,8 +340,8 @@ def check_selection(model, schema):
     variant, is dropped (it shrinks to it)."""
     probs = []
     seen = set()
-    for entry, default in (("validator_for", None), ("validator_for-default", jsonschema.Draft3Validator),
-                           ("validator_for-default", SENTINEL)):
+    for entry, default in (("validator_for", None), ("validator_for-default", SENTINEL),
+                           ("validator_for-default", jsonschema.Draft3Validator)):
         if default is None:
             obs, w, sw = recorded(lambda: validators.validator_for(schema))
             exp_cls, exp_warn = model.select(schema)
@@ -342,8 +349,8 @@ def check_selection(model, schema):
             obs, w, sw = recorded(lambda: validators.validator_for(schema, default=default))
             exp_cls, exp_warn = model.select(schema, default)
         p = selection_problem(obs, w, sw, exp_cls, exp_warn, model, schema, default)
-        if p is None or p in seen:
-            continue
+        if p is None or p in seen or (default is jsonschema.Draft3Validator and seen):
+            continue        # a registered class as default= is ambiguous once anything else is wrong
         seen.add(p)
         probs.append((entry, p, {"expected_class": label(exp_cls), "expected_warning": exp_warn,
                                  "default": None if default is None else label(default),
@@ -529,8 +536,50 @@ def probe_state(model, table):
 
 
 def canon(model):
-    return (tuple(sorted((k, label(v)) for k, v in model.names.items())),
-            tuple(sorted((k, label(v)) for k, v in model.ids.items())))
+    """Canonical registry state: the key sets and, for each value, its role plus which keys share one
+    object (classes are numbered per role in order of first appearance; no step numbers, no addresses)."""
+    tags, per_role = {}, {}
+
+    def tag(c):
+        if id(c) not in tags:
+            r = role(c)
+            tags[id(c)] = "%s#%d" % (r, per_role.get(r, 0))
+            per_role[r] = per_role.get(r, 0) + 1
+        return tags[id(c)]
+    return (tuple((k, tag(v)) for k, v in sorted(model.names.items())),
+            tuple((k, tag(v)) for k, v in sorted(model.ids.items())))
+
+
+class Placeholder(object):
+    def __init__(self, r):
+        self._c20_role = r
+
+
+def model_only(ops, hist):
+    """The same history applied to the model alone (no library call): used to number the states."""
+    m = Model()
+    for j in hist:
+        _, kind, p = ops[j]
+        if kind == "validates":
+            m.register(p["version"], Placeholder("validates-class"), p["uri"])
+        elif kind == "create":
+            m.register(p["version"], Placeholder("create-class"), p["uri"])
+        elif kind == "extend":
+            m.register(p["version"], Placeholder("extension-of-Draft%dValidator" % p["base"]), DRAFT_IDS[p["base"]])
+        else:
+            m.register(p["version"], DRAFTS[p["base"]], DRAFT_IDS[p["base"]])
+    return m
+
+
+FIRST_HISTORY = {}      # canonical state -> first history (shortest, then lexicographic) reaching it; built by plan()
+
+
+def number_states(ops, depth):
+    FIRST_HISTORY.clear()
+    for n in range(0, depth + 1):
+        for hist in itertools.product(range(len(ops)), repeat=n):
+            FIRST_HISTORY.setdefault(canon(model_only(ops, hist)), hist)
+    return len(FIRST_HISTORY)
 
 
 def run_history(ops, hist, table):
@@ -579,9 +628,9 @@ def plan(ctx):
     for i in range(len(sps)):
         units.append(("static", i))
     units.append(("boolean",))
-    if ctx.thorough:
-        for i in range(len(sps)):
-            units.append(("pairs", i))
+    for i in range(len(sps)):
+        if ctx.thorough or sps[i][1] in ("absent", "registered-id"):
+            units.extend(("pairs", i, k) for k in range(PAIR_CHUNKS))
     units.append(("hist", 0, ()))          # the empty history: the registries as imported
     for j in range(len(ops)):
         if ctx.thorough:
@@ -591,6 +640,7 @@ def plan(ctx):
         else:
             units.append(("hist", depth, (j,)))
     nh = sum(len(ops) ** n for n in range(0, depth + 1))
+    nstates = number_states(ops, depth)
     X = INSTANCES_T if ctx.thorough else INSTANCES_Q
     return {
         "units": units,
@@ -605,11 +655,13 @@ def plan(ctx):
                  "histories are distinct sequences. Non-trivial = a case on which at least two draft classes behave "
                  "differently (measured: the four classes' outcomes for the body/instance are not all equal), or a "
                  "history (every one changes a registry)" % (
-                     " (thorough: also all unordered pairs of bodies merged)" if ctx.thorough else "",
+                     " and all unordered pairs of bodies merged into one schema" + (
+                         "" if ctx.thorough else " (pairs: only for an absent $schema and the four ids as published)"),
                      depth, len(ops), len(probe_table(ctx.thorough)))),
         "bounds": {"tier": ctx.tier, "spellings": len(sps), "bodies": nb, "instances": len(X),
                    "explicit_classes": len(EXPLICIT), "cli_validator_options": len(CLI_VALIDATORS),
                    "history_operations": len(ops), "history_depth_unmerged": depth, "histories": nh,
+                   "distinct_canonical_registry_states_in_model": nstates,
                    "probe_spellings_per_history": len(probe_table(ctx.thorough))},
         "assumptions": [
             "dict model of the documented rule: key = URI with one empty fragment removed and the scheme lower-cased; "
@@ -632,10 +684,6 @@ def draft_disagreement(schema, lbl, x):
     return len(outs) > 1
 
 
-def spelling_kind(sp, kinds):
-    return kinds.get(sp, "custom-id")
-
-
 SHRINK_SPELLINGS = [(ABSENT, "any-spelling")] + [(DRAFT_IDS[d], "registered-id") for d in sorted(DRAFT_IDS)] + \
     [("http://example.com/unknown-schema#", "unknown-uri")]
 
@@ -651,14 +699,16 @@ def shrink_kind(sp, kind, fails):
     return kind
 
 
-def static_cases(ws, model, sp, kind, bodies, X, res, kinds):
-    """All entry points for one spelling over the given (label, body) list."""
-    # selection first: if it already fails by raising, nothing behind it can be compared
+def static_cases(ws, model, sp, kind, bodies, X, res, kinds, first=True):
+    """All entry points for one spelling over the given (label, body) list.
+    first=False: the bare-spelling selection probe belongs to another unit (not counted, not reported again)."""
+    # selection first: if it is already wrong, what depends on it cannot be compared
     sel_probs = check_selection(model, build_schema(sp, {}))
-    res["ev"] += 3
-    res["traces"] += 3
+    if first:
+        res["ev"] += 3
+        res["traces"] += 3
     sel_broken = any(entry == "validator_for" for entry, _, _ in sel_probs)
-    for entry, p, detail in sel_probs:
+    for entry, p, detail in (sel_probs if first else []):
         k2 = shrink_kind(sp, kind, lambda s2: any(
             (e, q) == (entry, p) for e, q, _ in check_selection(model, build_schema(s2, {}))))
         res["viol"].append({
@@ -666,7 +716,8 @@ def static_cases(ws, model, sp, kind, bodies, X, res, kinds):
             "case": {"entry": entry, "schema": build_schema(sp, {}), "default": detail["default"]},
             "detail": detail, "size": len(sp)})
     oc = "select:%s" % kind
-    res["outcomes"][oc] = res["outcomes"].get(oc, 0) + 1
+    if first:
+        res["outcomes"][oc] = res["outcomes"].get(oc, 0) + 1
     if sel_broken:
         # validate() and the command line without an explicit class are functions of a selection
         # that is already reported: they shrink to it.  Explicit classes are still compared.
@@ -745,7 +796,7 @@ def run_unit(unit, ctx):
                 plain = [(l, b) for l, b in BODIES if b is not None and l not in ("empty", "id-vs-$id-store")]
                 for (l1, b1), (l2, b2) in itertools.combinations(plain, 2):
                     merged.append((l1 + "+" + l2, merge_bodies(b1, b2)))
-                static_cases(ws, model, sp, kind, merged, INSTANCES_Q, res, kinds)
+                static_cases(ws, model, sp, kind, merged[unit[2]::PAIR_CHUNKS], INSTANCES_Q, res, kinds, first=False)
             else:
                 for schema in (True, False):
                     for entry, p, detail in check_selection(model, schema):
@@ -788,6 +839,7 @@ def run_unit(unit, ctx):
         static_sp = set(kinds)
         snap0 = snapshot()
         before = [(w, p, d.get("spelling")) for w, p, d in probe_state(Model(), table)]
+        before_keys = set((w, sp) for w, _, sp in before)
         for n in range(0, depth - len(prefix) + 1):
             for rest in itertools.product(range(len(ops)), repeat=n):
                 hist = tuple(prefix) + rest
@@ -796,15 +848,16 @@ def run_unit(unit, ctx):
                 res["nt"] += 1 if hist else 0
                 res["traces"] += 1
                 transitions += 1 if hist else 0     # the last operation of this history, probed in full
-                canon_seen.add(cs)
+                if FIRST_HISTORY.get(cs) == hist:     # each canonical state is counted by exactly one history
+                    canon_seen.add(cs)
                 takeovers += 1 if takeover else 0
                 oc = "history:%d-ops:%s" % (len(hist), "draft-id-taken-over" if takeover else "draft-ids-kept")
                 res["outcomes"][oc] = res["outcomes"].get(oc, 0) + 1
                 res["counters"]["probes"] = res["counters"].get("probes", 0) + len(table) * 3 + len(cs[1])
                 done = set()
                 for what, problem, detail in probs:
-                    if hist and (what, problem, detail.get("spelling")) in before:
-                        continue        # present before any registration: reported by the empty history
+                    if hist and (what, detail.get("spelling")) in before_keys:
+                        continue        # wrong before any registration: reported by the empty history / static part
                     if not hist and what.startswith("validator_for") and detail.get("spelling") in static_sp:
                         continue        # the static part reports exactly this probe
                     if (what, problem) in done:
@@ -833,10 +886,6 @@ def run_unit(unit, ctx):
     counters.update({"states": states, "transitions": transitions, "traces_validated_against_impl": res["traces"]})
     return {"evaluations": res["ev"], "nontrivial": res["nt"], "violations": res["viol"], "samples": res["samples"],
             "outcomes": res["outcomes"], "counters": counters}
-
-
-def finish(merged, plan, ctx):
-    pass
 
 
 def replay(case, ctx):
